@@ -29,6 +29,9 @@ def extra_entries():
         ("AffineCoupling(random mask, 4 features)", lambda: cp_.AffineCouplingTransform(tu_.create_random_binary_mask(4), lambda i, o: nets_.ResidualNet(i, o, 4, num_blocks=1)), [4], None),
         ("PiecewiseRQCoupling(random mask, 4 features)", lambda: cp_.PiecewiseRationalQuadraticCouplingTransform(
             tu_.create_random_binary_mask(4), lambda i, o: nets_.ResidualNet(i, o, 4, num_blocks=1), num_bins=3, tails="linear", tail_bound=3.0), [4], None),
+        ("ConditionalDiagonalNormal([2,3], Linear encoder)", lambda: normal.ConditionalDiagonalNormal([2, 3], context_encoder=torch.nn.Linear(3, 12)), [2, 3], [3]),
+        ("ConditionalDiagonalNormal([4], MLP encoder)", lambda: normal.ConditionalDiagonalNormal([4], context_encoder=torch.nn.Sequential(torch.nn.Linear(2, 6), torch.nn.Tanh(), torch.nn.Linear(6, 8))), [4], [2]),
+        ("Flow(ActNorm image, ConditionalDiagonalNormal([2,2,2], Linear encoder))", lambda: Flow(norm_.ActNorm(2), normal.ConditionalDiagonalNormal([2, 2, 2], context_encoder=torch.nn.Linear(3, 16))), [2, 2, 2], [3]),
         ("LULinear(5 features)", lambda: lu_.LULinear(5, identity_init=False), [5], None),
         ("OneByOneConvolution(4 channels)", lambda: conv.OneByOneConvolution(4, identity_init=False), [4, 2, 2], None),
         ("MADE(random mask)", None, None, None),
